@@ -31,6 +31,7 @@ MAP = [
     ('memcmp comparison fast paths compared alignment padding', 'C13'),
     ('erase() constructed shifted non-trivial objects on top of objects that were still alive', 'C06'),
     ('block size was under-estimated when plain/FixedSize parameters follow a low-aligned VaryingSize', 'C02'),
+    ('memcmp comparison fast paths ignored differing FixedSize counts', 'C13'),
 ]
 
 ROOT = os.path.dirname(os.path.dirname(os.path.abspath(__file__)))
